@@ -12,23 +12,51 @@ Print Assumptions c20_schedule_sound.
 
 (* For every server (any bytes, any of the three kinds), every script of body
    read outcomes (any chunking, failures at any offsets, any number of them),
-   every script of connection outcomes and every sequence of Read buffer sizes
-   (the consumer may keep reading after errors): the model never gets stuck,
-   and after every Read the bytes handed over so far are a prefix of the
-   server's bytes, EOF being reported only when all of them were handed over;
-   [progress] equals the number of bytes handed over. *)
-Theorem c20_faithful : forall srv rds cns bufs,
+   every script of connection outcomes in which every response is framed
+   (Content-Length or chunked: net/http reports an early end of the connection
+   as a read error) and every sequence of Read buffer sizes (the consumer may
+   keep reading after errors): the model never gets stuck, and after every Read
+   the bytes handed over so far are a prefix of the server's bytes, EOF being
+   reported only when all of them were handed over; [progress] equals the number
+   of bytes handed over. *)
+Theorem c20_faithful : forall srv rds cns bufs, framed cns ->
   exists r, session srv retry_schedule rds cns bufs = Ok r /\
     forall s outs, r = Some (s, outs) ->
       Faithful (data srv) outs /\ progress s = List.length (delivered outs).
-Proof. intros. exact (session_faithful srv retry_schedule rds cns bufs c20_schedule_sound). Qed.
+Proof. intros srv rds cns bufs H. exact (session_faithful srv retry_schedule rds cns bufs c20_schedule_sound H). Qed.
 Print Assumptions c20_faithful.
 
+(* Whatever the framing (responses without a length, closed cleanly at any
+   offset, included): never duplicated, never skipped, never altered. *)
+Theorem c20_prefix_any_framing : forall srv rds cns bufs,
+  exists r, session srv retry_schedule rds cns bufs = Ok r /\
+    forall s outs, r = Some (s, outs) ->
+      (exists suf, data srv = delivered outs ++ suf) /\ progress s = List.length (delivered outs).
+Proof. intros. exact (session_prefix srv retry_schedule rds cns bufs c20_schedule_sound). Qed.
+Print Assumptions c20_prefix_any_framing.
+
+(* ... but "a short body is never accepted as complete" needs the framing: a
+   200 response with neither Content-Length nor chunked encoding whose
+   connection is closed cleanly after 2 of 5 bytes is handed over as 2 bytes and
+   EOF; no Range request is made. Finding C20-F1 (replayed on the real reader in
+   the scripted corpus and through net/http in the http stage). *)
+Theorem c20_short_body_unframed_refuted :
+  exists srv cns bufs s outs,
+    session srv retry_schedule [] cns bufs = Ok (Some (s, outs)) /\
+    outs = [([1; 2]%N, ENone); ([], EEOF)] /\
+    valid_outs (data srv) [] outs = ["viol:eof-before-complete"%string] /\
+    reqs s = [None].
+Proof. exact short_body_close_delimited. Qed.
+Print Assumptions c20_short_body_unframed_refuted.
+
 (* no duplicate, no skip: a successful reset leaves the body positioned exactly
-   at [progress] — resumed by Range (206) or restarted and discarded (200) *)
+   at [progress] — resumed by Range (206) or restarted and discarded (200); what
+   the new body holds is what the server holds from there on ([suf] = what a
+   close-delimited response closed early never delivers; nothing when framed) *)
 Theorem c20_resume_exact : forall srv s, progress s <= List.length (data srv) ->
-  exists s' ok, reset srv s = Ok (s', ok) /\ progress s' = progress s /\
-    (dead (bdy s') = false -> rest (bdy s') = skipn (progress s) (data srv)) /\
+  exists s' ok suf, reset srv s = Ok (s', ok) /\ progress s' = progress s /\
+    (dead (bdy s') = false -> skipn (progress s) (data srv) = rest (bdy s') ++ suf) /\
+    (framed (conns s) -> suf = []) /\
     (ok = false -> dead (bdy s') = true).
 Proof. exact reset_resumes_exactly. Qed.
 Print Assumptions c20_resume_exact.
@@ -41,18 +69,83 @@ Theorem c20_exhausted_is_error : forall srv s lenp,
 Proof. intros. exact (read_call_exhausted srv retry_schedule s lenp c20_schedule_sound H H0 H1). Qed.
 Print Assumptions c20_exhausted_is_error.
 
+(* Completion: "resumed through range requests, or restarted when ranges are
+   unsupported". For every server content and kind, every buffer-size sequence
+   of non-zero sizes longer than the body, and every body-read script that is
+   [tolerated] (Spec/TransportSpec.v, a decidable accounting on the inputs alone:
+   inside each Read call every failing body read finds a [true] in the retry
+   schedule — at most two per call — and a re-connection that succeeds: no Range
+   header at progress 0; 206 from a Range-honouring server when progress < length;
+   a 200 restart whose discarded prefix is read without a failing body read),
+   with every connection served by the session's kind: the session hands over
+   exactly the server's bytes, reports EOF, and no Read reports an error.
+   Excluded by [tolerated], and real (the two theorems below): a fault after the
+   last byte against a Range-honouring server (416), and a fault while a restart
+   discards; a RejectsRange server survives faults at progress 0 only. One spot
+   where [tolerated] is stricter than the reader: a failing body read that arrives
+   together with the last byte to discard is swallowed by io.CopyN and costs a
+   retry instead (c20_two_cuts_complete below completes that way). *)
+Theorem c20_live : forall srv rds cns bufs,
+  all_serve cns ->
+  tolerated (List.length (data srv)) (kind srv) retry_schedule bufs 0 rds = true ->
+  List.length (data srv) < List.length bufs ->
+  exists s outs, session srv retry_schedule rds cns bufs = Ok (Some (s, outs)) /\
+    Complete (data srv) outs.
+Proof. exact (fun srv => session_live srv retry_schedule). Qed.
+Print Assumptions c20_live.
+
+Theorem c20_live_416_corner_refuted :
+  exists srv rds bufs s outs,
+    kind srv = HonoursRange /\ count_failing rds = 1 /\
+    List.length (data srv) < List.length bufs /\ Forall (fun n => n <> 0) bufs /\
+    session srv retry_schedule rds [] bufs = Ok (Some (s, outs)) /\
+    delivered outs = data srv /\
+    Exists (fun o => snd o = EFail) outs /\ ~ Exists (fun o => snd o = EEOF) outs /\
+    reqs s = [None; Some 3; Some 3; Some 3] /\
+    tolerated (List.length (data srv)) (kind srv) retry_schedule bufs 0 rds = false.
+Proof. exact live_416_corner. Qed.
+Print Assumptions c20_live_416_corner_refuted.
+
+Theorem c20_live_restart_cut_refuted :
+  exists srv rds bufs s outs,
+    kind srv = IgnoresRange /\ count_failing rds = 2 /\
+    List.length (data srv) < List.length bufs /\ Forall (fun n => n <> 0) bufs /\
+    session srv retry_schedule rds [] bufs = Ok (Some (s, outs)) /\
+    Exists (fun o => snd o = EFail) outs /\
+    reqs s = [None; Some 2; Some 3] /\
+    tolerated (List.length (data srv)) (kind srv) retry_schedule bufs 0 rds = false.
+Proof. exact live_restart_cut. Qed.
+Print Assumptions c20_live_restart_cut_refuted.
+
+(* the hypotheses of c20_live are satisfiable: two faults inside one Read, at
+   progress 2 of 5, survived by resuming (206) and by restarting (200) *)
+Example c20_live_two_faults_in_one_read : forall k, k = HonoursRange \/ k = IgnoresRange ->
+  tolerated 5 k retry_schedule [2; 2; 2; 2; 2; 2] 0
+    [ {| rk := 2; rfail := false; reager := false |};
+      {| rk := 1; rfail := true; reager := false |};
+      {| rk := 2; rfail := false; reager := false |};
+      {| rk := 0; rfail := true; reager := false |};
+      {| rk := 1; rfail := false; reager := false |};
+      {| rk := 1; rfail := false; reager := false |} ] = true \/
+  tolerated 5 k retry_schedule [2; 2; 2; 2; 2; 2] 0
+    [ {| rk := 2; rfail := false; reager := false |};
+      {| rk := 1; rfail := true; reager := false |};
+      {| rk := 0; rfail := true; reager := false |} ] = true.
+Proof. intros k [-> | ->]; [right | left]; vm_compute; reflexivity. Qed.
+
 (* the boolean validator run on the implementation's observed results decides
    exactly the readable statement *)
 Theorem c20_validator_decides : forall dat outs,
-  valid_outs dat [] outs = [] <-> Faithful dat outs.
-Proof. exact valid_outs_iff. Qed.
+  (valid_outs dat [] outs = [] <-> Faithful dat outs) /\
+  (complete_b dat outs = true <-> Complete dat outs).
+Proof. intros. split; [apply valid_outs_iff | apply complete_b_iff]. Qed.
 Print Assumptions c20_validator_decides.
 
 (* non-vacuity: a session with two cuts that completes, and the duplicate that
    a schedule ending in [true] would produce *)
 Example c20_two_cuts_complete :
   exists s outs,
-    session {| data := [10; 20; 30; 40; 50]%N; kind := IgnoresRange |} retry_schedule
+    session {| data := [10; 20; 30; 40; 50]%N; kind := IgnoresRange; bare := false |} retry_schedule
       [ {| rk := 2; rfail := false; reager := false |};
         {| rk := 1; rfail := true; reager := false |};
         {| rk := 1; rfail := false; reager := false |};
